@@ -50,6 +50,9 @@ type ExpressionAtom struct {
 	ValueNode model.ValueNode
 
 	Evaluated bool
+
+	// snapshot is the result of GetSnapshot, kept by the working memory once the node is registered there
+	snapshot string
 }
 
 // MakeCatalog will create a catalog entry from ExpressionAtom node.
@@ -224,6 +227,10 @@ func (e *ExpressionAtom) GetGrlText() string {
 
 // GetSnapshot will create a structure signature or AST graph
 func (e *ExpressionAtom) GetSnapshot() string {
+	if len(e.snapshot) > 0 {
+
+		return e.snapshot
+	}
 	var buff strings.Builder
 	buff.WriteString(EXPRESSIONATOM)
 	buff.WriteString("(")
